@@ -34,10 +34,16 @@ def fsc_landscape(
                 sigma0 = backend.sqrt(
                     backend.sum_labels(pw0, labels=labels, index=index)
                 )
-                fsc = backend.sum_labels(cov, labels=labels, index=index) / (
-                    sigma0 * sigma1
-                )
-                out[iz, iy, ix] = float(fsc.mean())
+                denom = sigma0 * sigma1
+                # FSC is undefined in shells without power (e.g. shells fully removed
+                # by the missing wedge, or flat images). Average over defined shells.
+                valid = denom > 0
+                nvalid = int(valid.sum())
+                if nvalid > 0:
+                    cov_sum = backend.sum_labels(cov, labels=labels, index=index)
+                    out[iz, iy, ix] = float((cov_sum[valid] / denom[valid]).sum()) / nvalid
+                else:
+                    out[iz, iy, ix] = 0.0
     return out
 
 
